@@ -27,10 +27,11 @@
 (*   FinishPush / FinishTag   imageImportOCIPushManifests (reverse order)    *)
 (*   DockerPush       ImageImport: manifest.New(WithOrig(dockerManifest)),   *)
 (*                    ManifestPut                                            *)
-(*   CodeTarget       the link target arithmetic filepath.Rel(Dir(name),     *)
-(*                    Linkname) then Clean("/"+t)[1:]                        *)
-(*   LinkList         linkList: `for range list` ranges over the slice as it *)
-(*                    was at loop start, so two levels of links are followed *)
+(*   TarTarget        link target: Join(Dir(name), Linkname) for a relative   *)
+(*                    symlink, Linkname for a hard link, Clean("/"+t)[1:]     *)
+(*                    (CodeTarget = the filepath.Rel arithmetic as found)     *)
+(*   AllLinks         linkList: index loop over the growing list, every level *)
+(*                    (LinkListCode = the two levels followed as found)       *)
 (*                                                                          *)
 (* Paths are sequences of segments (<<"blobs","sha256","#m">>; "#x" stands   *)
 (* for the hex digest of node x), so Clean / Rel / Dir are computed here     *)
@@ -44,9 +45,14 @@
 (* n / w count and label the accepted writes (the request log abstraction    *)
 (* the generator turns into a prediction).                                   *)
 (*                                                                          *)
-(* Switches (CONSTANTS): DrainBug = TRUE and LinkCode = TRUE describe the    *)
-(* code as it is (findings C09-1..3); FALSE describes the repaired design.   *)
-(* DupPathBug likewise for the Docker Layers list (finding C09-4).           *)
+(* Switches (CONSTANTS), all FALSE = the code as it is now.  TRUE brings back *)
+(* the behaviour that was found and repaired: DrainBug (C09-1, fixed by       *)
+(* ad30bfd: entry handler uploaded from the tar reader it had drained),       *)
+(* LinkCode (C09-2 a529ea7: link target = filepath.Rel(...); C09-3 72bf6e2:   *)
+(* linkList two levels deep), DupPathBug (C09-4 4eaa9ce: one Docker layer      *)
+(* handler per path kept only the last position).  The as-found settings are  *)
+(* used by the expected-counterexample configs, which explain what the seeds  *)
+(* seeded/fixrev-C09-* re-introduce.                                          *)
 (*                                                                          *)
 (* Deliberate deviations: content is abstract (node names; the ideal hash    *)
 (* assumption), JSON parsing always succeeds on a well formed file, gzip /   *)
@@ -56,9 +62,9 @@
 (***************************************************************************)
 EXTENDS TarImportCat
 
-CONSTANTS DrainBug,    \* entry handler uploads from the tar reader it drained with io.ReadAll
-          LinkCode,    \* link targets / link chains resolved the way the code does
-          DupPathBug,  \* Docker layer handlers keyed by path: a repeated path keeps only the last index
+CONSTANTS DrainBug,    \* as found: entry handler uploads from the tar reader it drained with io.ReadAll
+          LinkCode,    \* as found: link targets by filepath.Rel, link chains two levels deep
+          DupPathBug,  \* as found: Docker layer handlers keyed by path, a repeated path keeps only the last index
           Ids          \* the scenario ids to explore (subset of DOMAIN AllTable, see TarImportCat)
 
 VARIABLES sid,     \* id of the scenario (constant during a behaviour)
